@@ -421,6 +421,19 @@ func runWire(e *Env) {
 		cl.CloseAll()
 		return
 	}
+	if cfg.NumConns > 1 {
+		// the pools open their remaining connections in the background: let them finish (a
+		// jump of the clock between a handshake request and the node reading it would be a
+		// connect timeout, i.e. a fault this scenario does not inject)
+		want := cfg.NumConns * len(cl.Hosts)
+		k.SettleUntil(3*time.Second, time.Millisecond, func() { cl.Process(); cl.DeliverAll() }, func() bool {
+			n := 0
+			for _, cs := range sess.VerifPoolConns() {
+				n += len(cs)
+			}
+			return n >= want
+		})
+	}
 
 	for ti := 0; ti < nTasks; ti++ {
 		ti := ti
